@@ -103,6 +103,11 @@ def readData (file : List Nat) (bgn endo : Nat) (dt : DType) (n : Nat) (ws : Lis
   | none => go
 where
   sizeOk (total : Nat) : Bool := (total == endo + 1 - bgn && bgn ≤ endo + 1) || (total == endo - bgn && bgn ≤ endo)
+  /-- NumPy 2 refuses `data[:,col] &= bitmask` when the Python-int mask does not fit the container -/
+  maskFits (U : Nat) : Bool :=
+    match bitsUsed with
+    | none => true
+    | some bu => bu.all (· ≤ U)
   mmap (total : Nat) (k : List Nat → List (List Nat)) : Except PyErr (List (List Nat)) :=
     -- np.memmap: an empty file cannot be mapped; offset + size must not exceed the file length
     if file.length == 0 then .error .ValueError
@@ -112,14 +117,20 @@ where
     match dt with
     | .I =>
       if isUniform ws then
+        -- `num_bits = param_bit_widths[0]` raises IndexError when there are no parameters
+        if ws.isEmpty then .error .IndexError else
         let total := n * ws.length * (ws.headD 0 / 8)
         if !sizeOk total then .error .ValueError
-        else mmap total (fun bytes => decodeInt be ws n bytes bitsUsed)
+        else match mmap total (fun bytes => decodeInt be ws n bytes bitsUsed) with
+          | .error e => .error e
+          | .ok m => if maskFits (ws.headD 0) then .ok m else .error .OverflowError
       else if !(ws.all (· % 8 == 0)) || ws.any (· > 64) then .error .NotImplementedError
       else
         let total := n * rowBytes ws
         if !sizeOk total then .error .ValueError
-        else mmap total (fun bytes => decodeInt be ws n bytes bitsUsed)
+        else match mmap total (fun bytes => decodeInt be ws n bytes bitsUsed) with
+          | .error e => .error e
+          | .ok m => if maskFits (upcastBits ws) then .ok m else .error .OverflowError
     | .F =>
       if !(ws.all (· == 32)) then .error .ValueError
       else
